@@ -12,7 +12,7 @@ LEVEL = "exploration"
 RULE = (
     "Hypothesis generates project recipes: project fields within their documented widths, 0..8 (quick) / 0..24 (thorough) modules of any of the "
     "42 attachable types built as in C02 (attached through attach_module / += / += [list]), connect/disconnect operations, patterns / clones / "
-    "empty pattern slots with note cells, Unicode names (incl. names whose UTF-8 form straddles byte 32), MetaModules with embedded projects, "
+    "empty pattern slots with note cells (thorough: a few patterns of up to 32 tracks x 2048 lines), Unicode names (incl. names whose UTF-8 form straddles byte 32), MetaModules with embedded projects, "
     "Samplers with samples; a second family blanks generated module positions in the saved bytes, reloads and continues (interior empty "
     "positions, gap filling). Oracle: bytes load without error, snapshot(loaded) == snapshot(original), module index/parent and pattern owner "
     "identities hold, and re-saving the loaded project is stable from the second generation on. distinct = recipe hash; non-trivial = >= 2 non-Output modules, or a "
@@ -131,6 +131,7 @@ def check_project_spec(ctx, spec):
 
 def run_shard(ctx, desc):
     depth = 1 if ctx.tier == "quick" else 2
+    build.BIG_PATTERNS["on"] = ctx.tier == "thorough"
 
     def body(spec):
         ctx.case()
